@@ -1,6 +1,7 @@
 package main
 
 import (
+	"fmt"
 	"github.com/paulmach/orb"
 )
 
@@ -124,4 +125,84 @@ func quantMP(mp orb.MultiPolygon, s float64) ([][][][2]int, bool) {
 		out = append(out, pc)
 	}
 	return out, ok
+}
+
+// spareCopy returns a deep copy of g in which every slice has two spare elements of capacity filled with
+// sentinel values, and a function reporting whether those hidden elements are still what they were. A
+// function that appends to its (read-only) argument writes there - into memory the caller may be using
+// for the neighbouring geometry of a shared buffer.
+func spareCopy(g orb.Geometry) (orb.Geometry, func() bool) {
+	var fulls []interface{}
+	sentinel := orb.Point{-7777, 7777}
+	pts := func(ps []orb.Point) []orb.Point {
+		if ps == nil {
+			return nil
+		}
+		full := make([]orb.Point, len(ps)+2)
+		copy(full, ps)
+		full[len(ps)], full[len(ps)+1] = sentinel, sentinel
+		fulls = append(fulls, full[len(ps):])
+		return full[:len(ps)]
+	}
+	var cp func(g orb.Geometry) orb.Geometry
+	cp = func(g orb.Geometry) orb.Geometry {
+		switch v := g.(type) {
+		case orb.MultiPoint:
+			return orb.MultiPoint(pts(v))
+		case orb.LineString:
+			return orb.LineString(pts(v))
+		case orb.Ring:
+			return orb.Ring(pts(v))
+		case orb.MultiLineString:
+			if v == nil {
+				return v
+			}
+			full := make(orb.MultiLineString, len(v)+2)
+			for i := range v {
+				full[i] = orb.LineString(pts(v[i]))
+			}
+			full[len(v)], full[len(v)+1] = orb.LineString{sentinel}, orb.LineString{sentinel}
+			fulls = append(fulls, full[len(v):])
+			return full[:len(v)]
+		case orb.Polygon:
+			if v == nil {
+				return v
+			}
+			full := make(orb.Polygon, len(v)+2)
+			for i := range v {
+				full[i] = orb.Ring(pts(v[i]))
+			}
+			full[len(v)], full[len(v)+1] = orb.Ring{sentinel}, orb.Ring{sentinel}
+			fulls = append(fulls, full[len(v):])
+			return full[:len(v)]
+		case orb.MultiPolygon:
+			if v == nil {
+				return v
+			}
+			full := make(orb.MultiPolygon, len(v)+2)
+			for i := range v {
+				if p := cp(v[i]); p != nil {
+					full[i] = p.(orb.Polygon)
+				}
+			}
+			full[len(v)], full[len(v)+1] = orb.Polygon{{sentinel}}, orb.Polygon{{sentinel}}
+			fulls = append(fulls, full[len(v):])
+			return full[:len(v)]
+		case orb.Collection:
+			if v == nil {
+				return v
+			}
+			full := make(orb.Collection, len(v)+2)
+			for i := range v {
+				full[i] = cp(v[i])
+			}
+			full[len(v)], full[len(v)+1] = sentinel, sentinel
+			fulls = append(fulls, full[len(v):])
+			return full[:len(v)]
+		}
+		return g
+	}
+	out := cp(g)
+	before := fmt.Sprint(fulls...)
+	return out, func() bool { return fmt.Sprint(fulls...) == before }
 }
